@@ -36,9 +36,12 @@ class Rule:
     ('bool' | 'int' | 'real' | 'oref' | callable(E) -> fresh symbolic value);  leave_args_kind likewise for the list elements."""
 
     def __init__(self, J, Qe=None, Ql=None, modifies=(), enter_kind="oref", leave_kind="oref", depth=None, label="traverse",
-                 ghost_enter=None, ghost_leave=None, leave_args=None):
+                 ghost_enter=None, ghost_leave=None, leave_args=None, leave_args_at=None, leave_result=None):
         # ghost_enter / ghost_leave(E, vars, x, ctx): ghost code run right after the real callback (may update ghost objects listed in `modifies` only;
         # the call just made is in E.ghost["traverse-last-call"] = dict(x=, args=, ret=, ENT=, LEFT=), also for proof-step hints)
+        # leave_args_at(E, vars, x, ctx) -> the list handed to `leave` at node x when the child values are not scalars: the contract builds
+        # the list value (of length ctx.nkids(x)) and ASSUMES Ql of every entry itself;  leave_result(E) -> fresh value of the whole traversal
+        self.leave_args_at, self.leave_result = leave_args_at, leave_result
         self.ghost_enter, self.ghost_leave = ghost_enter, ghost_leave
         # NON-SCALAR callback values (kind = callable(E) -> fresh symbolic value):
         #  * an enter value is shared by all children of the node, so the constructor must hand out a FROZEN object (a write through it
@@ -168,8 +171,14 @@ def apply(eng, rule: Rule, fr, topology, enter, leave, root):
         for m in rule.modifies:
             if isinstance(m, tuple) and m[0] == "local":
                 continue
-            if callable(m):  # fn(E) -> the (ghost) object itself, for state that is not reachable by name from the client's frame
-                out.append(m(eng))
+            if callable(m):  # fn(eng) -> object (or (object, element kinds)) that is not addressed by a fixed name of the traversing frame
+                eng.cur_frame = fr
+                t = m(eng)
+                if isinstance(t, tuple):
+                    t, hint = t
+                    if getattr(t, "items", None) is not None:
+                        t.hint = hint
+                out.append(t)
                 continue
             hint = None
             if isinstance(m, tuple):  # ("expr", element kinds): a still-concrete list / dict is promoted to a symbolic one of that element type
@@ -243,6 +252,7 @@ def apply(eng, rule: Rule, fr, topology, enter, leave, root):
             LEFT = z3.Const(fresh_name("LEFT"), z3.ArraySort(I, B))
             xs = fresh("int", "node")
             xz = xs.z
+            eng.ghost["traverse-step-node"] = xz  # the arbitrary node of this step (for proof hints of the client)
             par = sel(P, xz)
             eng.assume(z3.ForAll([c], z3.And(z3.Implies(sel(LEFT, c), sel(ENT, c)), z3.Implies(sel(ENT, c), Sub(c)),
                                              z3.Implies(z3.And(sel(ENT, c), c != rz), sel(ENT, sel(P, c))))))
@@ -260,6 +270,7 @@ def apply(eng, rule: Rule, fr, topology, enter, leave, root):
             ret = eng.call(enter, [xs, pre], {})
             eng.ghost["traverse-last-call"] = dict(x=xz, args=pre, ret=ret, ENT=ENT, LEFT=LEFT)
             if rule.ghost_enter is not None:
+                ctx.ret = ret  # the value the real callback returned (ghost code may record it)
                 rule.ghost_enter(eng, vars_now(), xz, ctx)
             ENT2 = z3.Store(ENT, xz, z3.BoolVal(True))
             prove_J("enter/invariant-preserved", ENT2, LEFT)
@@ -274,6 +285,7 @@ def apply(eng, rule: Rule, fr, topology, enter, leave, root):
             LEFT = z3.Const(fresh_name("LEFT"), z3.ArraySort(I, B))
             xs = fresh("int", "node")
             xz = xs.z
+            eng.ghost["traverse-step-node"] = xz
             eng.assume(z3.ForAll([c], z3.And(z3.Implies(sel(LEFT, c), sel(ENT, c)), z3.Implies(sel(ENT, c), Sub(c)),
                                              z3.Implies(z3.And(sel(ENT, c), c != rz), sel(ENT, sel(P, c))),
                                              z3.Implies(z3.And(sel(LEFT, c), c != rz, sel(LEFT, sel(P, c))), z3.BoolVal(True)))))
@@ -285,22 +297,28 @@ def apply(eng, rule: Rule, fr, topology, enter, leave, root):
             args = None
             kind = rule.leave_kind
             mark = next_uid()
-            if callable(kind):
+            owned_check = False
+            if rule.leave_args_at is not None:
+                args = rule.leave_args_at(eng, vars_now(), xz, ctx)
+            elif callable(kind):
                 if rule.leave_args is None:
-                    raise Unsupported("traverse rule: non-scalar leave values need Rule(leave_args=...)")
+                    raise Unsupported("traverse rule: non-scalar leave values need Rule(leave_args=...) or Rule(leave_args_at=...)")
                 args, get = rule.leave_args(eng, nkids(xz))
+                owned_check = True
             else:
                 args = PList.fresh(kind, n=nkids(xz), name="kidvals")
                 get = lambda kz: Sym(sel(args.cols[0], kz), kind)
-            v = vars_now()
-            ql = rule.Ql(eng, v, kid(xz, k), get(k), ctx)
-            for part in ([f for _, f in ql] if isinstance(ql, (list, tuple)) else [ql]):  # one hypothesis per conjunct
-                eng.assume(z3.ForAll([k], z3.Implies(z3.And(0 <= k, k < nkids(xz)), _zb(part))))
+            if rule.leave_args_at is None:
+                v = vars_now()
+                ql = rule.Ql(eng, v, kid(xz, k), get(k), ctx)
+                for part in ([f for _, f in ql] if isinstance(ql, (list, tuple)) else [ql]):  # one hypothesis per conjunct
+                    eng.assume(z3.ForAll([k], z3.Implies(z3.And(0 <= k, k < nkids(xz)), _zb(part))))
             ret = eng.call(leave, [xs, args], {})
-            if callable(kind):
+            if owned_check:
                 eng.prove(f"{lab}/leave/returned-value-owns-its-mutable-parts", _zb(_owned(ret, mark)), "frame")
             eng.ghost["traverse-last-call"] = dict(x=xz, args=args, ret=ret, ENT=ENT, LEFT=LEFT)
             if rule.ghost_leave is not None:
+                ctx.ret, ctx.args = ret, args
                 rule.ghost_leave(eng, vars_now(), xz, ctx)
             LEFT2 = z3.Store(LEFT, xz, z3.BoolVal(True))
             prove_J("leave/invariant-preserved", ENT, LEFT2)
@@ -314,7 +332,7 @@ def apply(eng, rule: Rule, fr, topology, enter, leave, root):
     assume_J(S_all, S_all)
     if leave is None:
         return None
-    res = _mk_value(eng, rule.leave_kind, "trav")
+    res = rule.leave_result(eng) if rule.leave_result is not None else _mk_value(eng, rule.leave_kind, "trav")
     ql = rule.Ql(eng, vars_now(), rz, res, ctx)
     for part in ([f for _, f in ql] if isinstance(ql, (list, tuple)) else [ql]):  # one hypothesis per conjunct
         eng.assume(_zb(part))
